@@ -1863,6 +1863,20 @@ def m_vec_dedup(interp, args, info):
     return UNIT
 
 
+@model("std::vec::Vec::<T, A>::dedup_by")
+def m_vec_dedup_by(interp, args, info):
+    # documented: same_bucket(a, b) gets the elements in the opposite order from the slice — `a` is the later element,
+    # `b` the previously retained one — and `a` is removed when it answers true
+    c, path, v = _list_at(interp, args[0])
+    out = []
+    for x in v.items:
+        if out and interp.call_value(args[1], [mkref(x), mkref(out[-1])]):
+            continue
+        out.append(x)
+    interp.write(c, path, ListV(out))
+    return UNIT
+
+
 @model("std::vec::Vec::<T, A>::dedup_by_key")
 def m_vec_dedup_by_key(interp, args, info):
     c, path, v = _list_at(interp, args[0])
